@@ -10,7 +10,7 @@ def run(ctx):
     ctx.mc("MC_GridSearch", "MC_GridSearch.cfg" if quick else "MC_GridSearch_t.cfg")
     shapes = ctx.gen("MC_GridSearch", "Gen_GridSearch.cfg" if quick else "Gen_GridSearch_t.cfg")
     scns = run_harness_scenarios(ctx, "grid", shapes)
-    out = ctx.harness(["grid", "--random", "600" if quick else "10000"])
+    out = ctx.harness(["grid", "--random", "600" if quick else "60000"])
     scns += common.split_scenarios(out)
     for s, evs in scns:
         n = sum(1 for e in evs if e["ev"] == "Emit")
